@@ -10,6 +10,7 @@ U8 = ("u8",)
 BOOL = ("bool",)
 USIZE = ("usize",)
 UNIT = ("unit",)
+TOK = ("tok",)        # move-only token (rt::Tok): no Clone, no Copy, Drop counted
 
 
 def OPT(t):
@@ -38,6 +39,8 @@ def ty(t):
         return k
     if k == "unit":
         return "()"
+    if k == "tok":
+        return "Tok"
     if k == "opt":
         return "Option<%s>" % ty(t[1])
     if k == "res":
@@ -93,6 +96,8 @@ class Ctx:
         k = t[0]
         if k == "u8":
             return self.k()
+        if k == "tok":
+            return "Tok::new(%s)" % self.k()
         if k == "bool":
             return self.f()
         if k == "usize":
@@ -143,6 +148,9 @@ def to_u8(ctx, t, var="v"):
 def map_fn(ctx, t):
     """(closure text, out item type) for a map-like operand on item type t"""
     r = ctx.rnd.random()
+    if t == TOK and r < 0.6:
+        c, i = cl(ctx, "v: Tok", "v.map(|x| x ^ %s)" % ctx.k(), "v.obs()")
+        return c, TOK, i
     if t == U8 or r < 0.5:
         c, i = cl(ctx, "v: %s" % ty(t), to_u8(ctx, t), "v.obs()")
         return c, U8, i
